@@ -272,6 +272,15 @@ Proof.
   destruct (coerce_num a); [|reflexivity]. rewrite (IH Hin Hb). reflexivity.
 Qed.
 
+(* an explicit string test before the coercion (proposed fix for F-C02-1) changes nothing in the
+   model: the coercion rejects strings anyway *)
+Lemma seq_has_str_err s : seq_has_str s = true -> pd_int64index s = Err.
+Proof.
+  destruct s as [l|]; cbn [seq_has_str pd_int64index]; [|discriminate].
+  intro H. apply existsb_exists in H. destruct H as [n [Hin Hn]].
+  apply (coerce_all_bad l n Hin). destruct n; try discriminate. reflexivity.
+Qed.
+
 Definition element_container (i : input) (ns : list num) : Prop := i = IList ns \/ i = IArr ns.
 
 Lemma init_rejects_bad_element i ns n r : element_container i ns -> In n ns ->
